@@ -13,14 +13,14 @@ TRUSTED = ("Trusted base: CPython 3.12 interpreter, stdlib concurrent.futures (e
 # id -> (technique, level text, design ref) ; None = not claimed (reason)
 CLAIMS = {
     "C10": ("stateless model checking of the real code: delay-bounded exhaustive schedule enumeration (controlled scheduler over real threads)",
-            "Every schedule (<= deviation bound) of 1-2 submitter threads racing one shutdown() over every prior-future state is executed on the real CancelOnShutdownExecutor; the sweep-coverage oracle is evaluated on each.",
+            "Every schedule (<= deviation bound) of 1-2 submitter threads racing one shutdown() (also repeated, with cancel_futures, over a delegate that finishes its queue on shutdown) over every prior-future state is executed on the real CancelOnShutdownExecutor, plus shutdown() called from inside a callable that a synchronous delegate runs within submit(); the sweep-coverage oracle (every accepted, not yet done future cancelled exactly once; none escapes; none is run instead) is evaluated on each.",
             "DESIGN.md section 6 C10"),
 }
 CLAIMS["C04"] = ("stateless model checking of the real code: delay-bounded exhaustive schedule enumeration; wait-for-graph analysis of every final state",
     "Every schedule (<= deviation bound, synchronisation-operation granularity) of every 2-thread client program over {submit, nested submit, cancel, add_done_callback, nested callback, result, shutdown} on each executor layer and four stacks, over sync / thread-pool / manual bases, is executed on the real code; a thread blocked for ever on a lock or join (cycle, self-edge, dead holder) is a violation.",
     "DESIGN.md section 6 C04")
 CLAIMS["C11"] = ("stateless model checking of the real code: delay-bounded exhaustive schedule enumeration over workload states x racing submit x wait flag",
-    "Every schedule (<= deviation bound; synchronisation-operation granularity at d<=2, source-line granularity at d<=1) of shutdown() racing a submitter, for every executor class and four stacks over a recording base, in every workload state (idle, queued, running, done, between retries, polling, throttled): refusal afterwards on every layer, idempotence, exactly-one propagation with identical arguments, worker threads exited after wait=True, shutdown returns.",
+    "Every schedule (<= deviation bound; synchronisation-operation granularity at d<=2, source-line granularity at d<=1) of shutdown() racing a submitter, for every executor class and four stacks over a recording base, in every workload state (idle, queued, running, done, between retries, polling, throttled): refusal afterwards on every layer (also over a delegate that keeps accepting after its own shutdown), idempotence, exactly-one propagation with identical arguments, worker threads exited after wait=True, shutdown returns.",
     "DESIGN.md section 6 C11")
 CLAIMS["C03"] = ("stateless model checking of the real code under a virtual clock: delay-bounded exhaustive schedule enumeration; completion-time oracle",
     "For every executor layer (and both flat_map stages, warm and cold) and every combinator, every schedule (<= deviation bound) of the ways the underlying work can end (value, exception, cancel issued directly on the inner future, cancel through the derived future) is executed; at quiescence a derived future whose work is terminal must be terminal, and its completion / the next retry / the next hand-over must happen at the virtual instant implied by the configuration (never a fallback timer).",
@@ -38,7 +38,7 @@ CLAIMS["C08"] = ("stateless model checking of the real code under a virtual cloc
     "1-3 polled futures (delegates finishing at different virtual times, one failing, also with a falsy exception object), seven poll-function behaviours (yield at first/second sight, exception, double yield, raising at call 1/2, custom interval), four cancel functions, a canceller and a notify() thread: every schedule to d<=2 (sync-op granularity) / d<=1 (line granularity of poll.py) is executed; oracles: no overlap of poll calls, descriptor set contains every future eligible before the snapshot window and none already resolved, no duplicates, first yield wins, a raising call fails exactly what it was shown, first sight and notify() are prompt, cancel function only in the polling stage and its veto respected.",
     "DESIGN.md section 6 C08")
 CLAIMS["C09"] = ("stateless model checking of the real code under a virtual clock: delay-bounded schedule enumeration with a cancel-attempt monitor",
-    "Sets of 2-3 futures with default / per-call timeouts and f_timeout, submitted at virtual times 0/0.5/1 from separate threads, completing before / at / after their deadline or never, with a user cancel: every schedule to d<=2 (sync-op) / d<=1 (line granularity of timeout.py) is executed; every cancel() attempt by the timeout thread is logged: none before the deadline, at most one per future, exactly one in [deadline, deadline+8 eps] for a future still pending then, none for early finishers whose outcome is kept. Thorough adds a timer-jump pass for 'never early'.",
+    "Sets of 2-3 futures with default / per-call timeouts and f_timeout, submitted at virtual times 0/0.5/1 from separate threads, completing before / at / after their deadline or never, running at the deadline, with a slow refused cancel, a delegate whose submit() takes time, a done-callback that resubmits on timeout, and a user cancel: every schedule to d<=2 (sync-op) / d<=1 (line granularity of timeout.py) is executed; every cancel() attempt by the timeout thread is logged: none before the deadline, at most one per future, exactly one in [deadline, deadline+8 eps] for a future still pending then, none for early finishers whose outcome is kept. Thorough adds a timer-jump pass for 'never early'.",
     "DESIGN.md section 6 C09")
 CLAIMS["C18"] = ("stateless model checking of the real code: fault-site enumeration x delay-bounded schedule enumeration, with a liveness probe submission",
     "Every user-code call site (callable, map/error/flat_map fn incl. non-future return, poll fn, cancel fn, should_retry, sleep_time, count callable, done-callback) raising at call 1, 2 or every call, on each layer and five stacks, optionally with a concurrent cancel, followed by a probe submission; plus cancel() placed at the instant a retry becomes due: every schedule to d<=1 (faults) / d<=2 (cancel races) is executed; oracles: futures that did not flow through the faulty call keep their reference outcome, the fault is the owner's outcome or is logged, the probe is served, no library thread dies, nothing escapes a Future method or submit(), no InvalidStateError/assertion is logged as an error.",
@@ -59,10 +59,10 @@ CLAIMS["C16"] = ("explicit enumeration of arities x completion orders x failing 
     "0-3 positional (4 thorough) x keyword sets including names that collide with the implementation's own identifiers (x, fn, key, args, kwargs): every completion permutation of the function future and argument futures, pre-resolved inputs, a failing input at each position (also a falsy exception object, also through f_proxy) and a raising fn are executed, plus wide calls (10-40 positional and 12 keyword inputs) in four completion-order families; oracle: exactly one call, only after all inputs resolved, positional order, keyword mapping, output = return value / the failing input's or fn's exception. Concurrent resolution by one thread per input to d<=1 (2 thorough) at line granularity.",
     "DESIGN.md section 6 C16")
 CLAIMS["C17"] = ("exhaustive differential enumeration operator x value x operand on the real code, plus schedule enumeration for pending futures under a virtual clock",
-    "Every forwarded operation (19 binary incl. 3-argument pow, 2-argument round, item set/del; 21 unary/attribute/method incl. unknown attributes and dunders) x 16 values of all builtin kinds and a user class x 15 operands x {resolved, failed, failed with AttributeError} is evaluated on the proxy and on the plain value (same value and type, or same exception type): ~9 700 evaluations. Under the scheduler: nine non-forwarded operations must return at t=0 with the future still pending, eight forwarded ones must raise TimeoutError at exactly the configured virtual time and return the right value when another thread resolves the future later; f_nocancel over probe / cooperative / done / retrying futures: cancel() False in every schedule (d<=2), input never cancelled, outcome mirrored.",
+    "Every forwarded operation (19 binary incl. 3-argument pow, 2-argument round, item set/del; 21 unary/attribute/method incl. unknown attributes and dunders) x 16 values of all builtin kinds and a user class x 15 operands x {resolved, failed, failed with AttributeError} is evaluated on the proxy and on the plain value (same value and type, or same exception type), including operations applied twice to one proxy with the underlying object changing in between: ~9 800 evaluations. Under the scheduler: nine non-forwarded operations must return at t=0 with the future still pending, eight forwarded ones must raise TimeoutError at exactly the configured virtual time and return the right value when another thread resolves the future later; f_nocancel over probe / cooperative / done / retrying futures: cancel() False in every schedule (d<=2), input never cancelled, outcome mirrored.",
     "DESIGN.md section 6 C17")
 CLAIMS["C19"] = ("exhaustive program enumeration with a paired-program differential oracle, executed on the real code under the controlled scheduler",
-    "All with_* chains (7 layer types) of total length <=2 (quick) / <=3 (thorough) split before/after bind()/flat_bind(), x nine kinds of callable (function, keyword partial, positional partial, callable object, callable object exposing .func, falsy callable object, future-returning function, function carrying attributes such as _name, another executor's bound callable) x argument lists: the bound form and the submit form are built and run side by side and must give equal outcomes and equal invocation logs; flat_bind must flatten. Names: every chain of 1-3 layers containing a thread-creating layer, with an explicit name at each position or none, bind() at each position, over sync, thread-pool and plain stdlib-pool bases, also binding a function that carries a _name attribute: the names of the threads created must equal the inherited names.",
+    "All with_* chains (7 layer types) of total length <=2 (quick) / <=3 (thorough) split before/after bind()/flat_bind(), x nine kinds of callable (function, keyword partial, positional partial, callable object, callable object exposing .func, falsy callable object, future-returning function, function carrying attributes such as _name, another executor's bound callable) x argument lists: the bound form and the submit form are built and run side by side and must give equal outcomes and equal invocation logs; flat_bind must flatten; with_asyncio() as the last link is driven by a private event loop. Names: every chain of 1-3 layers containing a thread-creating layer, with an explicit name (also the empty string) at each position or none, bind() at each position, over sync, thread-pool and plain stdlib-pool bases, also binding a function that carries a _name attribute: the names of the threads created must equal the inherited names.",
     "DESIGN.md section 6 C19")
 CLAIMS["C01"] = ("stateless model checking of the real code: exhaustive enumeration of layer stacks x outcome scripts, delay-bounded schedule enumeration on the shallow stacks, sequential reference evaluator",
     "Every stack over the 7 layer types of depth 1 (d<=2), depth 2 (d<=1 with two submitter threads, d=0 otherwise) and depth 3 (d=0) - thorough adds depth 4, 5 and 6 (117 649 stacks) at d=0 - over the real SyncExecutor and the real thread pool, two submissions with tagged arguments and per-invocation outcome scripts (success, retryable failures, non-retryable failure, exhaustion, exceptions that compare equal, exception objects that are falsy), one faulty or one recovering user function per position; each run is compared with a recursive reference evaluator: value / the very exception object raised, invocation count, arguments, exactly one done notification.",
@@ -71,7 +71,7 @@ CLAIMS["C12"] = ("stateless model checking of the real code: delay-bounded place
     "For the retry / poll / throttle / timeout executors: shutdown(wait or not), dropping the last user reference (idle, while the worker is iterating, after a completed future, with a future still pending) and the library's exit hook are placed by the scheduler at every point of the worker loop (d<=3 sync-op granularity, d<=2 line granularity): the worker thread must have exited by the horizon and a pending future must still complete after the drop. Retention: for 10 executor / combinator kinds and the histories completed / failed / retried / cancelled while queued / cancelled in the delegate / timed out, weak references to the future, the callable, its arguments and its result must be dead after quiescence + gc.collect() while the executor lives.",
     "DESIGN.md section 6 C12; 'interpreter exit' = the library's registered exit hook invoked as a scheduled step (real interpreter finalisation cannot be scheduled)")
 CLAIMS["C20"] = ("explicit-state enumeration of event histories on the real executors with a stand-in metrics registry, plus delay-bounded schedule enumeration of concurrent histories",
-    "With a stand-in prometheus_client on the import path: every history of depth <=5 (6 thorough) over {submit, delegate finishes ok / fails, cancel, advance time past timeouts and back-offs, shutdown, submit after shutdown, delegate returning an already cancelled future} for 9 executor kinds (failures alternate between ordinary and falsy exception objects) is executed; after every event (quiescent point) futures-in-progress, executors-in-use, retry-queue and throttle-queue gauges must equal the real pending / alive / queued numbers, no series may ever have gone negative, and at the end the future total / cancel / error, retry, poll, poll-error and shutdown-cancel counters must equal the event counts. Concurrent histories (worker, cancel at the instant a retry is due, one or two shutdown threads) are explored to d<=1 (2 thorough); all f_* combinators must return every gauge to zero.",
+    "With a stand-in prometheus_client on the import path: every history of depth <=5 (6 thorough) over {submit, delegate finishes ok / fails, cancel, advance time past timeouts and back-offs, shutdown, submit after shutdown, delegate returning an already cancelled future} for 9 executor kinds (failures alternate between ordinary and falsy exception objects) is executed; after every event (quiescent point) futures-in-progress, executors-in-use, retry-queue and throttle-queue gauges must equal the real pending / alive / queued numbers, no series may ever have gone negative, and at the end the future total / cancel / error, retry, poll, poll-error and shutdown-cancel counters must equal the event counts. Concurrent histories (worker, cancel at the instant a retry is due, one or two shutdown threads) are explored to d<=1 (2 thorough); all f_* combinators must return every gauge to zero; two live executors sharing one name must add up in every gauge.",
     "DESIGN.md section 6 C20; the real prometheus_client is not installed, the registry is the checker's stand-in")
 NOT_YET = {}
 
